@@ -2,11 +2,11 @@ package engine
 
 import (
 	"fmt"
-	"reflect"
 	"go/constant"
 	"go/token"
 	"go/types"
 	"math"
+	"reflect"
 
 	"golang.org/x/tools/go/ssa"
 )
